@@ -33,6 +33,8 @@ def run(ctx, rep):
     writer_table(facts, rep, "C08-Z64REC", facts.one(r"^spec::Zip64CentralDirectoryEndLocator::write$"), "Z64LOC", spec, c)
     reader_table(facts, rep, "C08-Z64REC", facts.one(r"^spec::Zip64CentralDirectoryEnd::find_and_parse$"), "Z64EOCD", spec, c)
     reader_table(facts, rep, "C08-Z64REC", facts.one(r"^spec::Zip64CentralDirectoryEndLocator::parse$"), "Z64LOC", spec, c)
+    from rules.C03 import offset_rules
+    offset_rules(facts, rep)           # reported as C08/C03-OFFSET: the ZIP64 locator is looked for where it lies (behind the comment-carrying end record)
     rep.floor("C08-PAIR", 10)
     rep.floor("C08-EOCD", 12)
     rep.floor("C08-GUARD", 3)
